@@ -1,6 +1,15 @@
 /-
-  Saltpack.Proofs.FrontSettle — `Front.settle` against the receivers (see notes/ext-r4.md for
-  what is proved and what is not).  Core Lean only.
+  Saltpack.Proofs.FrontSettle — `Front.settle` against the receivers (notes/ext-r5.md).
+
+  `Front.settle` replaces the tail `Codec.blocks` reports (the condition of the TYPED read at
+  the place the typed reads stop) by `.eof` in one situation.  Here: the REFERENCE composition
+  (`Settle.runEnc2 / runSc2 / runSig2`, `Settle.refOpenEnc / refOpenSc / refVerify`): the
+  receiver run on the decoded items with TWO tails — the typed read's condition where the
+  receiver still expects a packet (the `[]` case of `run`), the generic read's condition
+  (`Settle.genericTail`, what `assertEndOfStream`'s `Read(&x)` finds there) once it has accepted
+  a final packet — and the proof that the receivers' results on the settled stream ARE the
+  results of the reference composition, for every byte string `Codec` answers on.
+  Core Lean only.
 -/
 import Saltpack.Proofs.CodecBytes
 
@@ -14,5 +23,645 @@ theorem settle_of_not_lastFinal {η β : Type} (decH : Codec.Dec η) (decB : η 
     Front.settle decH decB fin msg (.ok (.ok hb h, ps)) = .ok (.ok hb h, ps) := by
   unfold Front.settle
   simp [hl]
+
+namespace Settle
+
+/-! ## the generic read at the place where the typed reads stop -/
+
+/-- what a GENERIC read (`assertEndOfStream`: `Read(&x)`, `x interface{}`) finds at the position
+    where `Codec.blocks dec fuel b` stops (same walk as `Codec.blocks`): the input ended there
+    (typed read: `eof`) — `eof`; an object the typed decoder refuses: the generic decoder's own
+    answer — `eof` if it runs into the end of the input, a decode error if it fails, and if it
+    decodes an object that object is the item `none` of `Codec.blocks` (trailing garbage; nothing
+    is read behind it: `eof`).  Only used in statements. -/
+def genericTail {β : Type} (dec : Codec.Dec β) : Nat → Bytes → Tail
+  | 0, _ => .eof
+  | fuel + 1, b =>
+    match dec b with
+    | .ok (_, rest) => genericTail dec fuel rest
+    | .error (.err _) =>
+      (match Codec.generic b with
+       | .error .eof => .eof
+       | .error (.err _) => .err .decodeError
+       | _ => .eof)
+    | .error _ => .eof
+
+/-- the same for a whole message: header packet first, as `Codec.split` reads it -/
+def genericTailOf {η β : Type} (decH : Codec.Dec η) (decB : η → Option (Codec.Dec β)) (msg : Bytes) : Tail :=
+  match Codec.readHeader decH msg with
+  | .ok (.ok _ h, rest) =>
+    (match decB h with
+     | some d => genericTail d (rest.length + 1) rest
+     | none => .eof)
+  | _ => .eof
+
+/-- bridge between `settle`'s test and the generic tail: where `truncatedStop` holds the typed
+    tail is a decode error and the generic one a clean end; elsewhere the two tails coincide -/
+theorem genericTail_blocks {β : Type} (d : Codec.Dec β) : ∀ (fuel : Nat) (b : Bytes) (ps : PStream β),
+    Codec.blocks d fuel b = .ok ps →
+    (Front.truncatedStop d fuel b = true → ps.tail = .err .decodeError ∧ genericTail d fuel b = .eof) ∧
+    (Front.truncatedStop d fuel b = false → genericTail d fuel b = ps.tail) := by
+  intro fuel
+  induction fuel with
+  | zero => intro b ps h; simp [Codec.blocks] at h
+  | succ n ih =>
+    intro b ps h
+    simp only [Codec.blocks] at h
+    simp only [Front.truncatedStop, genericTail]
+    cases hd : d b with
+    | ok xr =>
+      obtain ⟨x, rest⟩ := xr
+      simp only [hd] at h ⊢
+      cases hb : Codec.blocks d n rest with
+      | error w => simp [hb] at h
+      | ok ps' =>
+        simp only [hb] at h
+        have := ih rest ps' hb
+        cases h
+        exact this
+    | error e =>
+      cases e with
+      | eof => simp only [hd] at h ⊢; cases h; simp
+      | unmodelled w => simp [hd] at h
+      | err w =>
+        simp only [hd] at h ⊢
+        cases hg : Codec.generic b with
+        | ok y => simp only [hg] at h ⊢; cases h; simp
+        | error e' =>
+          cases e' with
+          | eof => simp only [hg] at h ⊢; cases h; simp
+          | unmodelled w' => simp [hg] at h
+          | err w' => simp only [hg] at h ⊢; cases h; simp
+
+/-- the place where the typed reads stop: the input left when `dec` fails for the first time -/
+def stopAt {β : Type} (dec : Codec.Dec β) : Nat → Bytes → Bytes
+  | 0, b => b
+  | fuel + 1, b =>
+    match dec b with
+    | .ok (_, rest) => stopAt dec fuel rest
+    | .error _ => b
+
+/-- `genericTail` and `Codec.blocks`' tail described AT the stop position `s = stopAt …`, without
+    the walk: the typed read fails at `s`; if it says the input ended, both tails are `eof`;
+    otherwise `Codec.generic s` decides — an object: it is the last item (`none`, never a final
+    packet) and nothing is read behind it; end of input: typed tail decode error, generic tail
+    clean end (the one case where they differ); a failure: both a decode error. -/
+theorem tails_at_stop {β : Type} (d : Codec.Dec β) : ∀ (fuel : Nat) (b : Bytes) (ps : PStream β),
+    Codec.blocks d fuel b = .ok ps →
+    (d (stopAt d fuel b) = .error .eof ∧ ps.tail = .eof ∧ genericTail d fuel b = .eof) ∨
+    (∃ w, d (stopAt d fuel b) = .error (.err w) ∧
+      ((∃ y pre, Codec.generic (stopAt d fuel b) = .ok y ∧ ps.items = pre ++ [none] ∧ ps.tail = .eof) ∨
+       (Codec.generic (stopAt d fuel b) = .error .eof ∧ ps.tail = .err .decodeError ∧ genericTail d fuel b = .eof) ∨
+       (∃ w', Codec.generic (stopAt d fuel b) = .error (.err w') ∧ ps.tail = .err .decodeError ∧
+          genericTail d fuel b = .err .decodeError))) := by
+  intro fuel
+  induction fuel with
+  | zero => intro b ps h; simp [Codec.blocks] at h
+  | succ n ih =>
+    intro b ps h
+    simp only [Codec.blocks] at h
+    simp only [stopAt, genericTail]
+    cases hd : d b with
+    | ok xr =>
+      obtain ⟨x, rest⟩ := xr
+      simp only [hd] at h ⊢
+      cases hb : Codec.blocks d n rest with
+      | error w => simp [hb] at h
+      | ok ps' =>
+        simp only [hb] at h
+        cases h
+        rcases ih rest ps' hb with h1 | ⟨w, hw, h2 | h2 | h2⟩
+        · exact .inl h1
+        · obtain ⟨y, pre, hy, hi, ht⟩ := h2
+          exact .inr ⟨w, hw, .inl ⟨y, some x :: pre, hy, by simp [hi], ht⟩⟩
+        · exact .inr ⟨w, hw, .inr (.inl h2)⟩
+        · exact .inr ⟨w, hw, .inr (.inr h2)⟩
+    | error e =>
+      cases e with
+      | eof => simp only [hd] at h ⊢; cases h; simp
+      | unmodelled w => simp [hd] at h
+      | err w =>
+        simp only [hd] at h ⊢
+        cases hg : Codec.generic b with
+        | ok y => simp only [hg] at h ⊢; cases h; exact .inr ⟨w, rfl, .inl ⟨y, [], rfl, rfl, rfl⟩⟩
+        | error e' =>
+          cases e' with
+          | eof => simp only [hg] at h ⊢; cases h; simp
+          | unmodelled w' => simp [hg] at h
+          | err w' => simp only [hg] at h ⊢; cases h; simp
+
+/-! ## `lastFinal` -/
+
+theorem lastFinal_nil {β : Type} (fin : β → Bool) : Front.lastFinal fin [] = false := rfl
+
+theorem lastFinal_single {β : Type} (fin : β → Bool) (x : Option β) :
+    Front.lastFinal fin [x] = (match x with | some b => fin b | none => false) := by
+  cases x <;> simp [Front.lastFinal]
+
+theorem lastFinal_cons_cons {β : Type} (fin : β → Bool) (x y : Option β) (rest : List (Option β)) :
+    Front.lastFinal fin (x :: y :: rest) = Front.lastFinal fin (y :: rest) := by
+  simp [Front.lastFinal, List.getLast?_cons_cons]
+
+/-- a final packet that is not the last decoded item: the end-of-stream check answers from the
+    items, whatever the tail -/
+theorem endOfStream_cons {β : Type} (x : Option β) (rest : List (Option β)) (t : Tail) :
+    Decrypt.endOfStream (x :: rest) t = some .trailingGarbage := rfl
+
+/-- what `settle` does to `Codec.split`'s answer: the items stay, the tail becomes the generic
+    one exactly when the last decoded packet is final -/
+theorem settle_spec {η β : Type} (decH : Codec.Dec η) (decB : η → Option (Codec.Dec β)) (fin : η → β → Bool)
+    (msg : Bytes) (hr : HeaderRead η) (ps : PStream β) (h : Codec.split decH decB msg = .ok (hr, ps)) :
+    ∃ t, Front.settle decH decB fin msg (.ok (hr, ps)) = .ok (hr, ⟨ps.items, t⟩) ∧
+      ∀ hb hd, hr = .ok hb hd →
+        (Front.lastFinal (fin hd) ps.items = true → t = genericTailOf decH decB msg) ∧
+        (Front.lastFinal (fin hd) ps.items = false → t = ps.tail) := by
+  cases hr with
+  | unreadable => exact ⟨ps.tail, rfl, fun _ _ e => by cases e⟩
+  | undecodable x => exact ⟨ps.tail, rfl, fun _ _ e => by cases e⟩
+  | ok hb hd =>
+    cases hl : Front.lastFinal (fin hd) ps.items with
+    | false =>
+      refine ⟨ps.tail, settle_of_not_lastFinal decH decB fin msg hb hd ps hl, ?_⟩
+      intro hb' hd' e
+      cases e
+      simp [hl]
+    | true =>
+      -- what `split` read
+      unfold Codec.split at h
+      cases hrh : Codec.readHeader decH msg with
+      | error w => simp [hrh] at h
+      | ok p =>
+        obtain ⟨hr', rest⟩ := p
+        cases hr' with
+        | unreadable => simp [hrh] at h
+        | undecodable x => simp [hrh] at h
+        | ok hb' hd' =>
+          simp only [hrh] at h
+          cases hdb : decB hd' with
+          | none =>
+            simp only [hdb] at h
+            cases h
+            simp [Front.lastFinal] at hl
+          | some d =>
+            simp only [hdb] at h
+            cases hbl : Codec.blocks d (rest.length + 1) rest with
+            | error w => simp [hbl] at h
+            | ok ps' =>
+              simp only [hbl] at h
+              cases h
+              have hg : genericTailOf decH decB msg = genericTail d (rest.length + 1) rest := by
+                simp [genericTailOf, hrh, hdb]
+              have hbr := genericTail_blocks d _ _ _ hbl
+              cases hts : Front.truncatedStop d (rest.length + 1) rest with
+              | true =>
+                obtain ⟨ht, hgt⟩ := hbr.1 hts
+                refine ⟨.eof, ?_, ?_⟩
+                · simp [Front.settle, ht, hl, hrh, hdb, hts]
+                · intro hb'' hd'' e
+                  cases e
+                  simp [hl, hg, hgt]
+              | false =>
+                have hgt := hbr.2 hts
+                refine ⟨ps.tail, ?_, ?_⟩
+                · simp [Front.settle, hl, hrh, hdb, hts]
+                · intro hb'' hd'' e
+                  cases e
+                  simp [hl, hg, hgt]
+
+/-! ## signcryption -/
+
+/-- REFERENCE run of the signcryption receiver: `Signcrypt.run`, reading the `typed` tail where
+    it expects a further packet and the `generic` one in `assertEndOfStream` (after a final packet) -/
+def runSc2 (P : Prims) (s : Signcrypt.State) : List (Option SigncryptBlock) → (typed generic : Tail) → (seqno : Nat) → Released
+  | [], typed, _, _ =>
+    match typed with
+    | .eof => ⟨[], some .unexpectedEOF⟩
+    | .err e => ⟨[], some e⟩
+  | none :: _, _, _, _ => ⟨[], some .decodeError⟩
+  | some b :: rest, typed, generic, seqno =>
+    match Signcrypt.processBlock P s b seqno with
+    | .error e => ⟨[], some e⟩
+    | .ok chunk =>
+      match checkChunkState v2 chunk.length (seqno - 1) b.final with
+      | .error e => ⟨[], some e⟩
+      | .ok () =>
+        if b.final then ⟨chunk, Decrypt.endOfStream rest generic⟩
+        else
+          let r := runSc2 P s rest typed generic (seqno + 1)
+          ⟨chunk ++ r.bytes, r.err⟩
+
+/-- reference composition for `NewSigncryptOpenStream` + read to the end -/
+def refOpenSc (P : Prims) (kr : Keyring) (res : Signcrypt.Resolver) (hr : HeaderRead EncHeader)
+    (items : List (Option SigncryptBlock)) (typed generic : Tail) : Signcrypt.Result :=
+  match hr with
+  | .unreadable => ⟨none, [], some .failedToReadHeaderBytes, []⟩
+  | .undecodable _ => ⟨none, [], some .decodeError, []⟩
+  | .ok hb h =>
+    match Signcrypt.processHeader P kr res (P.hash hb) h with
+    | (log, .error e) => ⟨none, [], some e, log⟩
+    | (log, .ok st) =>
+      let r := runSc2 P st items typed generic 1
+      ⟨st.sender, r.bytes, r.err, log⟩
+
+/-- one tail in both places: the receiver's own run -/
+theorem runSc2_same (P : Prims) (s : Signcrypt.State) (items : List (Option SigncryptBlock)) (t : Tail) (n : Nat) :
+    runSc2 P s items t t n = Signcrypt.run P s items t n := by
+  induction items generalizing n with
+  | nil => cases t <;> rfl
+  | cons x rest ih =>
+    cases x with
+    | none => rfl
+    | some b =>
+      simp only [runSc2, Signcrypt.run]
+      cases Signcrypt.processBlock P s b n with
+      | error e => rfl
+      | ok chunk =>
+        simp only []
+        cases checkChunkState v2 chunk.length (n - 1) b.final with
+        | error e => rfl
+        | ok u => simp only [ih]
+
+/-- case 2 — the last decoded packet is final: the typed tail is never consulted -/
+theorem runSc2_lastFinal (P : Prims) (s : Signcrypt.State) (items : List (Option SigncryptBlock)) (typed generic : Tail)
+    (n : Nat) (hl : Front.lastFinal (fun b : SigncryptBlock => b.final) items = true) :
+    runSc2 P s items typed generic n = Signcrypt.run P s items generic n := by
+  induction items generalizing n with
+  | nil => simp [Front.lastFinal] at hl
+  | cons x rest ih =>
+    cases x with
+    | none => rfl
+    | some b =>
+      simp only [runSc2, Signcrypt.run]
+      cases Signcrypt.processBlock P s b n with
+      | error e => rfl
+      | ok chunk =>
+        simp only []
+        cases checkChunkState v2 chunk.length (n - 1) b.final with
+        | error e => rfl
+        | ok u =>
+          simp only []
+          by_cases hf : b.final = true
+          · simp only [hf, if_true]
+          · have : Front.lastFinal (fun b : SigncryptBlock => b.final) rest = true := by
+              cases rest with
+              | nil => rw [lastFinal_single] at hl; exact absurd hl hf
+              | cons y r => rwa [lastFinal_cons_cons] at hl
+            simp only [hf, if_false, ih _ this]
+
+/-- cases 1 and 3 — the last decoded item is not a final packet: the generic tail is never
+    consulted (a final packet further left is followed by an item: trailing garbage, whatever the tail) -/
+theorem runSc2_not_lastFinal (P : Prims) (s : Signcrypt.State) (items : List (Option SigncryptBlock)) (typed generic : Tail)
+    (n : Nat) (hl : Front.lastFinal (fun b : SigncryptBlock => b.final) items = false) :
+    runSc2 P s items typed generic n = Signcrypt.run P s items typed n := by
+  induction items generalizing n with
+  | nil => cases typed <;> rfl
+  | cons x rest ih =>
+    cases x with
+    | none => rfl
+    | some b =>
+      simp only [runSc2, Signcrypt.run]
+      cases Signcrypt.processBlock P s b n with
+      | error e => rfl
+      | ok chunk =>
+        simp only []
+        cases checkChunkState v2 chunk.length (n - 1) b.final with
+        | error e => rfl
+        | ok u =>
+          simp only []
+          by_cases hf : b.final = true
+          · simp only [hf, if_true]
+            cases rest with
+            | nil => rw [lastFinal_single] at hl; simp [hf] at hl
+            | cons y r => rfl
+          · have : Front.lastFinal (fun b : SigncryptBlock => b.final) rest = false := by
+              cases rest with
+              | nil => rfl
+              | cons y r => rwa [lastFinal_cons_cons] at hl
+            simp [hf, ih _ this]
+
+/-- **`settle` is transparent for the signcryption receiver** -/
+theorem settle_transparent_sc (P : Prims) (kr : Keyring) (res : Signcrypt.Resolver) (msg : Bytes)
+    (hr : HeaderRead EncHeader) (ps : PStream SigncryptBlock) (h : Codec.splitSigncrypt msg = .ok (hr, ps)) :
+    Signcrypt.openBytes P kr res msg =
+      .ok (refOpenSc P kr res hr ps.items ps.tail
+            (genericTailOf Codec.decEncHeader (fun _ => some Codec.decSigncryptBlock) msg)) := by
+  obtain ⟨t, hs, ht⟩ := settle_spec Codec.decEncHeader (fun _ => some Codec.decSigncryptBlock)
+    (fun _ (b : SigncryptBlock) => b.final) msg hr ps h
+  unfold Signcrypt.openBytes Front.readSigncrypt
+  rw [h, hs]
+  simp only [Front.orWire]
+  congr 1
+  cases hr with
+  | unreadable => rfl
+  | undecodable x => rfl
+  | ok hb hd =>
+    simp only [Signcrypt.openStream, refOpenSc]
+    obtain ⟨h1, h2⟩ := ht hb hd rfl
+    have key : ∀ st, Signcrypt.run P st ps.items t 1 = runSc2 P st ps.items ps.tail
+        (genericTailOf Codec.decEncHeader (fun _ => some Codec.decSigncryptBlock) msg) 1 := by
+      intro st
+      cases hl : Front.lastFinal (fun b : SigncryptBlock => b.final) ps.items with
+      | true => rw [h1 hl, runSc2_lastFinal P _ _ _ _ _ hl]
+      | false => rw [h2 hl, runSc2_not_lastFinal P _ _ _ _ _ hl]
+    rcases Signcrypt.processHeader P kr res (P.hash hb) hd with ⟨log, e | st⟩
+    · rfl
+    · simp only [key]
+
+/-! ## attached signatures -/
+
+/-- REFERENCE run of the verifying receiver: `Sign.run` with the `typed` tail where a further
+    packet is expected and the `generic` one in `assertEndOfStream` -/
+def runSig2 (P : Prims) (s : Sign.State) : List (Option SigBlock) → (typed generic : Tail) → (seqno : Nat) → Released
+  | [], typed, _, _ =>
+    match typed with
+    | .eof => ⟨[], some .unexpectedEOF⟩
+    | .err e => ⟨[], some e⟩
+  | none :: _, _, _, _ => ⟨[], some .decodeError⟩
+  | some b :: rest, typed, generic, seqno =>
+    let isFinal := Sign.blockFinal s.version b
+    match Sign.processBlock P s b isFinal seqno with
+    | .error e => ⟨[], some e⟩
+    | .ok () =>
+      match checkChunkState s.version b.chunk.length (seqno - 1) isFinal with
+      | .error e => ⟨[], some e⟩
+      | .ok () =>
+        if isFinal then ⟨b.chunk, Decrypt.endOfStream rest generic⟩
+        else
+          let r := runSig2 P s rest typed generic (seqno + 1)
+          ⟨b.chunk ++ r.bytes, r.err⟩
+
+/-- reference composition for `NewVerifyStream` + read to the end -/
+def refVerify (P : Prims) (valid : Validator) (kr : Keyring) (hr : HeaderRead SigHeader)
+    (items : List (Option SigBlock)) (typed generic : Tail) : Sign.Result :=
+  match hr with
+  | .unreadable => ⟨none, [], some .failedToReadHeaderBytes⟩
+  | .undecodable _ => ⟨none, [], some .decodeError⟩
+  | .ok hb h =>
+    match Sign.validate valid h mtAttached with
+    | .error e => ⟨none, [], some e⟩
+    | .ok () =>
+      match kr.lookupSigningPublicKey h.senderPublic with
+      | none => ⟨none, [], some .noSenderKey⟩
+      | some pk =>
+        if h.version.major != 1 && h.version.major != 2 then
+          ⟨some pk, [], some (.panic "readSignatureBlock")⟩
+        else
+          let r := runSig2 P ⟨h.version, P.hash hb, pk⟩ items typed generic 1
+          ⟨some pk, r.bytes, r.err⟩
+
+theorem runSig2_same (P : Prims) (s : Sign.State) (items : List (Option SigBlock)) (t : Tail) (n : Nat) :
+    runSig2 P s items t t n = Sign.run P s items t n := by
+  induction items generalizing n with
+  | nil => cases t <;> rfl
+  | cons x rest ih =>
+    cases x with
+    | none => rfl
+    | some b =>
+      simp only [runSig2, Sign.run]
+      cases Sign.processBlock P s b (Sign.blockFinal s.version b) n with
+      | error e => rfl
+      | ok u =>
+        simp only []
+        cases checkChunkState s.version b.chunk.length (n - 1) (Sign.blockFinal s.version b) with
+        | error e => rfl
+        | ok u => simp only [ih]
+
+/-- case 2 — the last decoded packet is final: the typed tail is never consulted -/
+theorem runSig2_lastFinal (P : Prims) (s : Sign.State) (items : List (Option SigBlock)) (typed generic : Tail)
+    (n : Nat) (hl : Front.lastFinal (Sign.blockFinal s.version) items = true) :
+    runSig2 P s items typed generic n = Sign.run P s items generic n := by
+  induction items generalizing n with
+  | nil => simp [Front.lastFinal] at hl
+  | cons x rest ih =>
+    cases x with
+    | none => rfl
+    | some b =>
+      simp only [runSig2, Sign.run]
+      cases Sign.processBlock P s b (Sign.blockFinal s.version b) n with
+      | error e => rfl
+      | ok u =>
+        simp only []
+        cases checkChunkState s.version b.chunk.length (n - 1) (Sign.blockFinal s.version b) with
+        | error e => rfl
+        | ok u =>
+          simp only []
+          by_cases hf : Sign.blockFinal s.version b = true
+          · simp only [hf, if_true]
+          · have : Front.lastFinal (Sign.blockFinal s.version) rest = true := by
+              cases rest with
+              | nil => rw [lastFinal_single] at hl; exact absurd hl hf
+              | cons y r => rwa [lastFinal_cons_cons] at hl
+            simp [hf, ih _ this]
+
+/-- cases 1 and 3 — the last decoded item is not a final packet: the generic tail is never consulted -/
+theorem runSig2_not_lastFinal (P : Prims) (s : Sign.State) (items : List (Option SigBlock)) (typed generic : Tail)
+    (n : Nat) (hl : Front.lastFinal (Sign.blockFinal s.version) items = false) :
+    runSig2 P s items typed generic n = Sign.run P s items typed n := by
+  induction items generalizing n with
+  | nil => cases typed <;> rfl
+  | cons x rest ih =>
+    cases x with
+    | none => rfl
+    | some b =>
+      simp only [runSig2, Sign.run]
+      cases Sign.processBlock P s b (Sign.blockFinal s.version b) n with
+      | error e => rfl
+      | ok u =>
+        simp only []
+        cases checkChunkState s.version b.chunk.length (n - 1) (Sign.blockFinal s.version b) with
+        | error e => rfl
+        | ok u =>
+          simp only []
+          by_cases hf : Sign.blockFinal s.version b = true
+          · simp only [hf, if_true]
+            cases rest with
+            | nil => rw [lastFinal_single] at hl; simp [hf] at hl
+            | cons y r => rfl
+          · have : Front.lastFinal (Sign.blockFinal s.version) rest = false := by
+              cases rest with
+              | nil => rfl
+              | cons y r => rwa [lastFinal_cons_cons] at hl
+            simp [hf, ih _ this]
+
+/-- **`settle` is transparent for the verifying receiver (attached signatures)** -/
+theorem settle_transparent_sig (P : Prims) (valid : Validator) (kr : Keyring) (msg : Bytes)
+    (hr : HeaderRead SigHeader) (ps : PStream SigBlock) (h : Codec.splitSig msg = .ok (hr, ps)) :
+    Sign.verifyBytes P valid kr msg =
+      .ok (refVerify P valid kr hr ps.items ps.tail
+            (genericTailOf Codec.decSigHeader
+              (fun h => if Codec.majorOK h.version.major then some (Codec.decSigBlock h.version.major) else none) msg)) := by
+  obtain ⟨t, hs, ht⟩ := settle_spec Codec.decSigHeader
+    (fun h => if Codec.majorOK h.version.major then some (Codec.decSigBlock h.version.major) else none)
+    (fun h (b : SigBlock) => Sign.blockFinal h.version b) msg hr ps h
+  unfold Sign.verifyBytes Front.readSig
+  rw [h, hs]
+  simp only [Front.orWire]
+  congr 1
+  cases hr with
+  | unreadable => rfl
+  | undecodable x => rfl
+  | ok hb hd =>
+    simp only [Sign.verifyStream, refVerify]
+    obtain ⟨h1, h2⟩ := ht hb hd rfl
+    have key : ∀ pk, Sign.run P ⟨hd.version, P.hash hb, pk⟩ ps.items t 1 =
+        runSig2 P ⟨hd.version, P.hash hb, pk⟩ ps.items ps.tail
+        (genericTailOf Codec.decSigHeader
+          (fun h => if Codec.majorOK h.version.major then some (Codec.decSigBlock h.version.major) else none) msg) 1 := by
+      intro pk
+      cases hl : Front.lastFinal (Sign.blockFinal hd.version) ps.items with
+      | true => rw [h1 hl]; exact (runSig2_lastFinal P ⟨hd.version, P.hash hb, pk⟩ _ _ _ _ hl).symm
+      | false => rw [h2 hl]; exact (runSig2_not_lastFinal P ⟨hd.version, P.hash hb, pk⟩ _ _ _ _ hl).symm
+    cases Sign.validate valid hd mtAttached with
+    | error e => rfl
+    | ok u =>
+      simp only []
+      cases kr.lookupSigningPublicKey hd.senderPublic with
+      | none => rfl
+      | some pk => simp only [key]
+
+/-! ## encryption -/
+
+/-- REFERENCE run of the decrypting receiver: `Decrypt.run` with the `typed` tail where a further
+    packet is expected and the `generic` one in `assertEndOfStream` -/
+def runEnc2 (P : Prims) (s : Decrypt.State) : List (Option EncBlock) → (typed generic : Tail) → (seqno : Nat) → Released
+  | [], typed, _, _ =>
+    match typed with
+    | .eof => ⟨[], some .unexpectedEOF⟩
+    | .err e => ⟨[], some e⟩
+  | none :: _, _, _, _ => ⟨[], some .decodeError⟩
+  | some b :: rest, typed, generic, seqno =>
+    let isFinal := Decrypt.blockFinal s.version b
+    match Decrypt.processBlock P s b isFinal seqno with
+    | .error e => ⟨[], some e⟩
+    | .ok chunk =>
+      match checkChunkState s.version chunk.length (seqno - 1) isFinal with
+      | .error e => ⟨[], some e⟩
+      | .ok () =>
+        if isFinal then ⟨chunk, Decrypt.endOfStream rest generic⟩
+        else
+          let r := runEnc2 P s rest typed generic (seqno + 1)
+          ⟨chunk ++ r.bytes, r.err⟩
+
+/-- reference composition for `NewDecryptStream` + read to the end -/
+def refOpenEnc (P : Prims) (valid : Validator) (kr : Keyring) (hr : HeaderRead EncHeader)
+    (items : List (Option EncBlock)) (typed generic : Tail) : Decrypt.Result :=
+  match hr with
+  | .unreadable => ⟨none, [], some .failedToReadHeaderBytes, []⟩
+  | .undecodable _ => ⟨none, [], some .decodeError, []⟩
+  | .ok hb h =>
+    match Decrypt.processHeader P valid kr (P.hash hb) h with
+    | (log, .error e) => ⟨none, [], some e, log⟩
+    | (log, .ok st) =>
+      let r := runEnc2 P st items typed generic 1
+      ⟨some st.mki, r.bytes, r.err, log⟩
+
+theorem runEnc2_same (P : Prims) (s : Decrypt.State) (items : List (Option EncBlock)) (t : Tail) (n : Nat) :
+    runEnc2 P s items t t n = Decrypt.run P s items t n := by
+  induction items generalizing n with
+  | nil => cases t <;> rfl
+  | cons x rest ih =>
+    cases x with
+    | none => rfl
+    | some b =>
+      simp only [runEnc2, Decrypt.run]
+      cases Decrypt.processBlock P s b (Decrypt.blockFinal s.version b) n with
+      | error e => rfl
+      | ok chunk =>
+        simp only []
+        cases checkChunkState s.version chunk.length (n - 1) (Decrypt.blockFinal s.version b) with
+        | error e => rfl
+        | ok u => simp only [ih]
+
+/-- case 2 — the last decoded packet is final: the typed tail is never consulted -/
+theorem runEnc2_lastFinal (P : Prims) (s : Decrypt.State) (items : List (Option EncBlock)) (typed generic : Tail)
+    (n : Nat) (hl : Front.lastFinal (Decrypt.blockFinal s.version) items = true) :
+    runEnc2 P s items typed generic n = Decrypt.run P s items generic n := by
+  induction items generalizing n with
+  | nil => simp [Front.lastFinal] at hl
+  | cons x rest ih =>
+    cases x with
+    | none => rfl
+    | some b =>
+      simp only [runEnc2, Decrypt.run]
+      cases Decrypt.processBlock P s b (Decrypt.blockFinal s.version b) n with
+      | error e => rfl
+      | ok chunk =>
+        simp only []
+        cases checkChunkState s.version chunk.length (n - 1) (Decrypt.blockFinal s.version b) with
+        | error e => rfl
+        | ok u =>
+          simp only []
+          by_cases hf : Decrypt.blockFinal s.version b = true
+          · simp only [hf, if_true]
+          · have : Front.lastFinal (Decrypt.blockFinal s.version) rest = true := by
+              cases rest with
+              | nil => rw [lastFinal_single] at hl; exact absurd hl hf
+              | cons y r => rwa [lastFinal_cons_cons] at hl
+            simp [hf, ih _ this]
+
+/-- cases 1 and 3 — the last decoded item is not a final packet: the generic tail is never consulted -/
+theorem runEnc2_not_lastFinal (P : Prims) (s : Decrypt.State) (items : List (Option EncBlock)) (typed generic : Tail)
+    (n : Nat) (hl : Front.lastFinal (Decrypt.blockFinal s.version) items = false) :
+    runEnc2 P s items typed generic n = Decrypt.run P s items typed n := by
+  induction items generalizing n with
+  | nil => cases typed <;> rfl
+  | cons x rest ih =>
+    cases x with
+    | none => rfl
+    | some b =>
+      simp only [runEnc2, Decrypt.run]
+      cases Decrypt.processBlock P s b (Decrypt.blockFinal s.version b) n with
+      | error e => rfl
+      | ok chunk =>
+        simp only []
+        cases checkChunkState s.version chunk.length (n - 1) (Decrypt.blockFinal s.version b) with
+        | error e => rfl
+        | ok u =>
+          simp only []
+          by_cases hf : Decrypt.blockFinal s.version b = true
+          · simp only [hf, if_true]
+            cases rest with
+            | nil => rw [lastFinal_single] at hl; simp [hf] at hl
+            | cons y r => rfl
+          · have : Front.lastFinal (Decrypt.blockFinal s.version) rest = false := by
+              cases rest with
+              | nil => rfl
+              | cons y r => rwa [lastFinal_cons_cons] at hl
+            simp [hf, ih _ this]
+
+/-- **`settle` is transparent for the decrypting receiver** -/
+theorem settle_transparent_enc (P : Prims) (valid : Validator) (kr : Keyring) (msg : Bytes)
+    (hr : HeaderRead EncHeader) (ps : PStream EncBlock) (h : Codec.splitEnc msg = .ok (hr, ps)) :
+    Decrypt.openBytes P valid kr msg =
+      .ok (refOpenEnc P valid kr hr ps.items ps.tail
+            (genericTailOf Codec.decEncHeader
+              (fun h => if Codec.majorOK h.version.major then some (Codec.decEncBlock h.version.major) else none) msg)) := by
+  obtain ⟨t, hs, ht⟩ := settle_spec Codec.decEncHeader
+    (fun h => if Codec.majorOK h.version.major then some (Codec.decEncBlock h.version.major) else none)
+    (fun h (b : EncBlock) => Decrypt.blockFinal h.version b) msg hr ps h
+  unfold Decrypt.openBytes Front.readEnc
+  rw [h, hs]
+  simp only [Front.orWire]
+  congr 1
+  cases hr with
+  | unreadable => rfl
+  | undecodable x => rfl
+  | ok hb hd =>
+    simp only [Decrypt.openStream, refOpenEnc]
+    obtain ⟨h1, h2⟩ := ht hb hd rfl
+    have key : ∀ st : Decrypt.State, st.version = hd.version → Decrypt.run P st ps.items t 1 =
+        runEnc2 P st ps.items ps.tail
+        (genericTailOf Codec.decEncHeader
+          (fun h => if Codec.majorOK h.version.major then some (Codec.decEncBlock h.version.major) else none) msg) 1 := by
+      intro st hv
+      rw [← hv] at h1 h2
+      cases hl : Front.lastFinal (Decrypt.blockFinal st.version) ps.items with
+      | true => rw [h1 hl]; exact (runEnc2_lastFinal P st _ _ _ _ hl).symm
+      | false => rw [h2 hl]; exact (runEnc2_not_lastFinal P st _ _ _ _ hl).symm
+    rcases hph : Decrypt.processHeader P valid kr (P.hash hb) hd with ⟨log, e | st⟩
+    · rfl
+    · simp only [key st (dec_processHeader_version P valid kr _ hd log st hph)]
+
+end Settle
 
 end Saltpack.Proofs
